@@ -5,7 +5,7 @@ ID = 'C06'
 HARNESSES = ['h_c06.cpp']
 LEVEL = 'model_checking'
 BUDGET = {'quick': 200, 'thorough': 1500}
-BOUNDS = {'quick': 'data sets of n = 0..3 frames (2 points x 1 channel x 1-2 sub-frames), all floats symbolic; target index a free 64-bit variable constrained only by idx <= n+3; append; point/channel columns by frames and by name',
+BOUNDS = {'quick': 'data sets of n = 0..3 frames (2 points x 1 channel x 1-2 sub-frames), all floats symbolic; target index a free 64-bit variable constrained only by idx <= n+3; append; point/channel columns by frames and by name, also after an indexed store 3 beyond the end (gap frames)',
           'thorough': 'n = 0..5, shapes up to 3 points x 2 channels x 2 sub-frames, idx <= n+5'}
 OUTSIDE = 'indices beyond n+3 (n+5): they only add more empty frames (allocation size is C16/C17 matter); n > 3 (5)'
 ASSUMPTIONS = ['the frame given carries the declared shape (C07 covers deviations)']
@@ -16,11 +16,12 @@ def jobs(tier, seed):
     shapes = [(2, 1, 1), (2, 1, 2)] if tier == 'quick' else [(2, 1, 1), (2, 1, 2), (3, 2, 2), (1, 0, 1), (0, 2, 1)]
     for (P, C, S) in shapes:
         for n in range(top + 1):
-            for mode in range(6):
+            for mode in range(8):
                 if mode >= 2 and n == 0: continue
+                if mode >= 6 and (P == 0 or n > 2): continue
                 if mode in (3, 5) and C == 0: continue
                 if mode in (2, 4) and P == 0: continue
-                out.append({'entry': 'h_c06', 'harness': 'h_c06.cpp', 'name': ['append', 'indexed', 'point-column', 'channel-column', 'point-by-name', 'channel-by-name'][mode],
+                out.append({'entry': 'h_c06', 'harness': 'h_c06.cpp', 'name': ['append', 'indexed', 'point-column', 'channel-column', 'point-by-name', 'channel-by-name', 'gap-then-point-by-name', 'gap-then-point-column'][mode],
                             'cfg': {'n': n, 'mode': mode, 'P': P, 'C': C, 'S': S, 'beyond': 3 if tier == 'quick' else 5}})
     return out
 
@@ -71,6 +72,13 @@ def obligations(sec, job, st, idx=None):
                     for k in range(n): O += frame_eq('extend/others-unchanged', B[k], A[k], 'frame %d after extending to %d' % (k, idx + 1))
                     for k in range(n, idx):
                         O.append(Obl('extend/gap-empty', A[k]['nbPoints'] != 0 or A[k]['nbSubframes'] != 0, 'gap frame %d holds %s points, %s sub-frames' % (k, A[k]['nbPoints'], A[k]['nbSubframes'])))
+    elif mode in (6, 7):
+        E = frames_of(sec['extended'])
+        O.append(Obl('gap-column/count', len(A) != len(E), 'column add changes the frame count %d -> %d' % (len(E), len(A))))
+        G = obsmodel.parse_dump([('dat.nbFrames', len(E))] + sec['given'])['frames'] if mode == 7 else None
+        for k in range(min(len(E), len(A))):
+            ep = dict(ZERO_POINT, name=list(b'newp')) if mode == 6 else G[k]['points'][0]
+            O += frame_eq('gap-column/one-column-per-frame', E[k], A[k], 'frame %d (of %d, %d created as gap frames) after adding one point column' % (k, len(E), len(E) - n - 1), extra_point=ep)
     else:
         O.append(Obl('column/count', len(A) != n, 'column add changes the frame count %d -> %d' % (n, len(A))))
         if mode in (2, 3):
